@@ -359,8 +359,8 @@ def write_scsv_header(stream, schema, comments=None):
     stream.write("schema:" + os.linesep)
     delimiter = schema["delimiter"]
     missing = schema["missing"]
-    stream.write(f"  delimiter: '{delimiter}'{os.linesep}")
-    stream.write(f"  missing: '{missing}'{os.linesep}")
+    stream.write(f"  delimiter: {_yaml_scalar(delimiter)}{os.linesep}")
+    stream.write(f"  missing: {_yaml_scalar(missing)}{os.linesep}")
     stream.write("  fields:" + os.linesep)
 
     for field in schema["fields"]:
@@ -370,11 +370,20 @@ def write_scsv_header(stream, schema, comments=None):
         stream.write(f"      type: {kind}{os.linesep}")
         if "unit" in field:
             unit = field["unit"]
-            stream.write(f"      unit: {unit}{os.linesep}")
+            stream.write(f"      unit: {_yaml_scalar(unit)}{os.linesep}")
         if "fill" in field:
             fill = field["fill"]
-            stream.write(f"      fill: {fill}{os.linesep}")
+            stream.write(f"      fill: {_yaml_scalar(fill)}{os.linesep}")
     stream.write("---" + os.linesep)
+
+
+def _yaml_scalar(value):
+    """Serialise a scalar for the SCSV YAML header, quoted and escaped as necessary."""
+    try:
+        text = yaml.safe_dump(value, default_flow_style=True, width=2**31)
+    except yaml.YAMLError:  # Not a plain Python scalar (e.g. NumPy scalar types).
+        text = yaml.safe_dump(str(value), default_flow_style=True, width=2**31)
+    return text.removesuffix("...\n").strip()
 
 
 def save_scsv(file, schema, data, **kwargs):
